@@ -89,7 +89,8 @@ def run(chk, facts):
         body_s = src(arm["body"]).replace(" ", "")
         # a look-ahead on a *clone* of the iterator does not consume
         clone_blocks = [n for n in walk(arm["body"]) if n.get("k") == "block" and any(
-            st.get("k") == "local" and src(st.get("init")).replace(" ", "") == "it.clone()" for st in n["stmts"])]
+            st.get("k") == "local" and src(st.get("init")).replace(" ", "") == "it.clone()" and
+            [m["name"] for m in walk(st["pat"]) if m.get("k") == "pident"] == ["it"] for st in n["stmts"])]   # only when the clone shadows `it`
         in_clone = set()
         for cb in clone_blocks:
             for n in walk(cb):
